@@ -20,6 +20,7 @@ CONSTANTS
   JitterChoices = {99999}
   Deviations = {"F12", "F14"}
   MaxApps = 0
+  MaxSucc = 6
   MaxLen = 3
 INVARIANT Theorems
 CHECK_DEADLOCK FALSE
